@@ -347,6 +347,11 @@ func VerifyHashed(pubx, puby, e, r, s []byte) (bool, error) {
 		return false, err
 	}
 
+	// GM/T 0003.2 7.1 B6 needs the affine x coordinate of a finite point; the point at infinity has none
+	if result.IsInfinity() == 1 {
+		return false, errors.New("[s]G + [t]P is the point at infinity")
+	}
+
 	R := result.GetAffineX_Unsafe()
 	eInt.SetBytes(e)
 	R.Add(R, &eInt)
